@@ -109,5 +109,31 @@ def install(E):
     reg('ZEq', lambda e, a: zi(a[0]) == zi(a[1]))
     reg('ZIte', lambda e, a: mk(z3.If(e.tobool(a[0]), zi(a[1]), zi(a[2]))))
     E.opaque_eq['Z'] = lambda e, x, y: x.val == y.val
+    def pick(e, a, conv, wrap):
+        idx = a[0]; opts = slist(a[1])
+        c = e.conc(idx)
+        if c is not None:
+            if c >= len(opts): raise GoPanic('Pick index out of range')
+            return opts[c]
+        e.assume(z3.ULT(idx, len(opts)))
+        r = conv(opts[-1])
+        for k in range(len(opts) - 2, -1, -1): r = z3.If(idx == k, conv(opts[k]), r)
+        return wrap(r)
+    reg('PickStr', lambda e, a: pick(e, a, lambda s: e.sterm(s), lambda t: StrV(t=t)))
+    reg('PickU64', lambda e, a: pick(e, a, lambda x: e.bv(x, 64), lambda t: t))
+    def pickpriv(e, a):
+        from .crypto import privval, mkpriv
+        return pick(e, a, lambda p: privval(e, p), lambda t: mkpriv(t))
+    reg('PickPriv', pickpriv)
+    ufs = {}
+    def uf64(e, a):
+        name = a[0].c
+        f = ufs.get(name)
+        if f is None: f = ufs[name] = z3.Function('uf_' + name, BV64, BV64)
+        x = e.bv(a[1], 64)
+        r = f(x)
+        e.P.g.setdefault('uf', {}).setdefault(name, []).append((x, r))
+        return r
+    reg('UF64', uf64)
     reg('TempDir', lambda e, a: StrV(c='/model/tmp'))
     reg('BytesEq', lambda e, a: e.streq(e.tobytes(a[0]), e.tobytes(a[1])))
